@@ -16,7 +16,8 @@
 (*        physically happened to each packet), k packets went to direction *)
 (*        d, filling buffer "into" and possibly overflowing into "newb";   *)
 (*        "done" is what the code adds to its done counter                 *)
-(*   reemit b nin nout done | prem d b n | term.set | it.end (census)      *)
+(*   reemit b nin nout done | reemit.ids b in sel out | prem d b n |       *)
+(*   term.set | it.end (census)                                            *)
 (* A violated requirement adds a tag to the variable bad; each tag is one  *)
 (* named invariant, so TLC reports which clause failed and where.          *)
 (***************************************************************************)
@@ -109,6 +110,16 @@ TReemit == /\ IsEvent("reemit")
                          \cup Tag(Rec.nout <= Rec.nin /\ Rec.done = Rec.nin - Rec.nout, "account")
            /\ UNCHANGED <<req, unborn, staging, ended>>
 
+\* identity of the packets through a re-emission task: "in" = fingerprints of the packets in the buffer before the
+\* task, "sel" = (0-based, increasing) indices of the packets the handler re-emitted, "out" = fingerprints of the
+\* packets left in the buffer afterwards.  Exactly the re-emitted packets continue, each once, in their order.
+TReemitIds == /\ IsEvent("reemit.ids")
+              /\ bad' = bad \cup Tag(/\ Len(Rec.out) = Len(Rec.sel)
+                                      /\ \A k \in 1 .. Len(Rec.sel) : /\ Rec.sel[k] < Len(Rec.in)
+                                                                      /\ (k > 1 => Rec.sel[k - 1] < Rec.sel[k])
+                                                                      /\ Rec.out[k] = Rec.in[Rec.sel[k] + 1], "identity")
+              /\ UNCHANGED <<req, unborn, staging, done, inbuf, pool, ended>>
+
 TPrem == /\ IsEvent("prem")
          /\ bad' = bad \cup Tag(Alive(inbuf, Rec.b) /\ Count(inbuf, Rec.b) = Rec.n /\ Rec.n > 0, "input")
          /\ UNCHANGED <<req, unborn, staging, done, inbuf, pool, ended>>
@@ -128,7 +139,7 @@ TEnd == /\ IsEvent("it.end")
              \cup Tag(ended, "early")
         /\ UNCHANGED <<req, unborn, staging, done, inbuf, pool, ended>>
 
-Next == TBegin \/ TSrcD \/ TDraw \/ TSend \/ TTrav \/ TReemit \/ TPrem \/ TTerm \/ TEnd
+Next == TBegin \/ TSrcD \/ TDraw \/ TSend \/ TTrav \/ TReemit \/ TReemitIds \/ TPrem \/ TTerm \/ TEnd
 Spec == Init /\ [][Next]_vars
 
 NotAccepted == l <= Len(TraceLog)
@@ -140,7 +151,7 @@ PrintMaxL == PrintT(<<"MAXL", TLCGet(1)>>)
 \* a packet is never lost or duplicated
 Conservation == unborn + staging + pool + done = req
 \* every packet is classified exactly once and accounted exactly once
-ExactlyOnce == bad \cap {"classify", "stored", "account", "input"} = {}
+ExactlyOnce == bad \cap {"classify", "stored", "account", "input", "identity"} = {}
 \* nothing is lost or duplicated when a full buffer overflows into a fresh one
 OverflowExact == "overflow" \notin bad
 \* sources hand out exactly the requested number, into fresh buffers
